@@ -295,6 +295,6 @@ def prop(r):
 
 SUBS = [
     Sub("barriers", lambda tier: G.program_c13(tier), prop, budget=dict(quick=5000, thorough=120000),
-        floor=dict(quick=350, thorough=12000),
+        floor=dict(quick=700, thorough=12000),
         nontrivial_rule="a cross-core conflicting pair exists (barriers ignored) and one such pair is loop-carried, goes through two different SSA views, or has an access inside an scf.if branch"),
 ]
